@@ -15,6 +15,7 @@ import (
 	"sort"
 	"strconv"
 	"strings"
+	"sync"
 	"time"
 
 	"github.com/ipfs/go-cid"
@@ -113,37 +114,88 @@ func (w *world) newCommits() ([]string, map[string][]byte) {
 }
 
 // collect drains every subscriber up to a barrier and returns, per subscriber, the received labels in order.
+// The subscribers are drained concurrently (and the GraphQL subscription next to them): the bus hands a message to
+// every subscriber before it takes the next one, so with more undelivered messages than a subscriber's buffer holds a
+// reader that waits for one subscriber's barrier while the others are full would wait for ever.
 func (w *world) collect(raws map[string][]byte) map[int][]string {
 	w.barrier++
 	w.n.DB.Events().Publish(event.NewMessage(barrierName, w.barrier))
-	got := map[int][]string{}
-	for _, s := range w.subs {
-		for done := false; !done; {
-			select {
-			case m, ok := <-s.sub.Message():
-				if !ok {
-					done = true
-					break
-				}
-				if u, isU := m.Data.(event.Update); isU {
-					lab := w.label(u.Cid)
-					got[s.id] = append(got[s.id], lab)
-					// the announced block is readable from the store and carries the same bytes
-					blk, raw, err := w.n.LoadBlock(w.ctx, u.Cid)
-					if err != nil || blk == nil {
-						w.out.Oracle(w.out.Lines, fmt.Sprintf("[event-block-missing] case %d: update event announces %s but the block is not in the store: %v", w.caseID, lab, err))
-					} else if !bytes.Equal(raw, u.Block) {
-						w.out.Oracle(w.out.Lines, fmt.Sprintf("[event-block-differs] case %d: update event for %s carries bytes different from the stored block", w.caseID, lab))
+	msgs := make([][]event.Message, len(w.subs))
+	timedOut := make([]bool, len(w.subs))
+	var wg sync.WaitGroup
+	for i, s := range w.subs {
+		wg.Add(1)
+		go func(i int, s *subscriber) {
+			defer wg.Done()
+			for {
+				select {
+				case m, ok := <-s.sub.Message():
+					if !ok {
+						return
 					}
-				} else if n, isB := m.Data.(int); isB && n == w.barrier {
-					done = true
+					if n, isB := m.Data.(int); isB && n == w.barrier {
+						return
+					}
+					msgs[i] = append(msgs[i], m)
+				case <-time.After(20 * time.Second):
+					timedOut[i] = true
+					return
 				}
-			case <-time.After(10 * time.Second):
-				panic("bus barrier timed out")
+			}
+		}(i, s)
+	}
+	allDone := make(chan struct{})
+	go func() { wg.Wait(); close(allDone) }()
+	for waiting := true; waiting; {
+		if w.gsub == nil {
+			<-allDone
+			break
+		}
+		select {
+		case <-allDone:
+			waiting = false
+		case res, ok := <-w.gsub:
+			if !ok {
+				<-allDone
+				waiting = false
+				break
+			}
+			w.countGQL(res)
+		}
+	}
+	for i := range timedOut {
+		if timedOut[i] {
+			// the barrier is a message like any other: when it does not arrive, the bus lost it (or stopped)
+			w.out.Oracle(w.out.Lines, fmt.Sprintf("[events-not-commits] case %d: subscriber %d did not receive the barrier message published after the step within 20 s (%d messages received before it)", w.caseID, w.subs[i].id, len(msgs[i])))
+		}
+	}
+	got := map[int][]string{}
+	for i, s := range w.subs {
+		for _, m := range msgs[i] {
+			if u, isU := m.Data.(event.Update); isU {
+				lab := w.label(u.Cid)
+				got[s.id] = append(got[s.id], lab)
+				// the announced block is readable from the store and carries the same bytes
+				blk, raw, err := w.n.LoadBlock(w.ctx, u.Cid)
+				if err != nil || blk == nil {
+					w.out.Oracle(w.out.Lines, fmt.Sprintf("[event-block-missing] case %d: update event announces %s but the block is not in the store: %v", w.caseID, lab, err))
+				} else if !bytes.Equal(raw, u.Block) {
+					w.out.Oracle(w.out.Lines, fmt.Sprintf("[event-block-differs] case %d: update event for %s carries bytes different from the stored block", w.caseID, lab))
+				}
 			}
 		}
 	}
 	return got
+}
+
+// countGQL counts one answer of the filtered subscription when it carries a document.
+func (w *world) countGQL(res client.GQLResult) {
+	jb, _ := json.Marshal(res.Data)
+	var m map[string][]map[string]any
+	_ = json.Unmarshal(jb, &m)
+	if len(m["User"]) > 0 {
+		w.gqlGot++
+	}
 }
 
 func sortedCopy(x []string) []string {
@@ -192,12 +244,7 @@ func (w *world) step(what string, expectGQL int) {
 					waiting = false
 					break
 				}
-				jb, _ := json.Marshal(res.Data)
-				var m map[string][]map[string]any
-				_ = json.Unmarshal(jb, &m)
-				if len(m["User"]) > 0 {
-					w.gqlGot++
-				}
+				w.countGQL(res)
 			case <-time.After(wait):
 				waiting = false
 			}
@@ -561,6 +608,10 @@ func main() {
 		// a document created and changed inside one transaction: the notification of its first commit is judged at that
 		// commit (age 30, below the subscription's filter), not at the state the transaction ends in
 		{"0 2", "txn-begin", "create 1 each", "update 0 77", "txn-commit", "update 0 20", "txn-begin", "create 1 each", "update 1 88", "update 1 40", "txn-commit"},
+		// one request that commits more documents than a subscriber's buffer holds (eventBufferSize = 100), read only
+		// after it returned: every commit is still announced to every subscriber (plain: 130 events; branchable: 2 x 60)
+		{"0 2", "create 130 many", "update 0 77"},
+		{"1 2", "create 60 many", "delete 3"},
 	}
 	caseID := 0
 	for _, d := range directed {
